@@ -180,6 +180,13 @@ func fixedScenarios() []fixed {
 	mk("dial-reverse-to-from", func(sc *scenario) { sc.ReverseEnv = true })
 	mk("accept-early-data", func(sc *scenario) { sc.Seg = "whole"; sc.Mode = "accept"; sc.EarlyData = 5 })
 	mk("register-reply-lowercase-x", func(sc *scenario) { sc.RegX = true })
+	mk("writes-of-whole-multiples-of-frame-and-buffer-sizes", func(sc *scenario) {
+		sc.Writes = []int{2048, 4096, 6144, 8192, 4095, 4097, 256, 512, 1024, 3 * 256, 16384, 65536, 255, 257}
+	})
+	mk("writes-of-whole-multiples-tcp", func(sc *scenario) {
+		sc.Link, sc.Seg = "tcp", "cut30"
+		sc.Writes = []int{4096, 2048, 12288, 6144, 1, 8192, 10240}
+	})
 	mk("data-frames-with-other-pids", func(sc *scenario) { sc.VaryPID = true })
 	mk("data-frames-with-other-pids-accept-tcp", func(sc *scenario) {
 		sc.Link, sc.Seg, sc.Mode, sc.VaryPID = "tcp", "cut30", "accept", true
